@@ -2702,4 +2702,100 @@ theorem accepts_iff_11RS (s : Text) :
         simp only [bto_ascii rest 4 rasc this, bfrom_ascii rest 4 rasc this, Res.bind_ok, Res.pure_eq]
         rfl
 
+/-! ### 25 (no option): `35x` after one optional slash — the convention recorded as finding F-C01-field25-slash -/
+
+/-- the library's reading of field 25's content: one optional leading slash is not part of the account -/
+def strip25 (s : Text) : Text := match s with | '/' :: r => r | _ => s
+
+/-- 25 `35x`: after the one optional leading slash, 1 to 35 x-characters -/
+theorem accepts_iff_25 (s : Text) : (F25.parse s).isOk = true ↔ Doc.XText 35 (strip25 s) := by
+  have e : F25.parse s = (do
+      let a ← parseMaxLength (strip25 s) 35
+      if a.isEmpty then Res.err else
+      parseSwiftChars a
+      pure a) := by
+    unfold F25.parse strip25; rfl
+  rw [e]
+  generalize strip25 s = a
+  unfold parseMaxLength
+  constructor
+  · intro h
+    by_cases hl : blen a ≤ 35
+    · simp only [hl, if_true, Res.bind_ok] at h
+      by_cases hne : a.isEmpty = true
+      · simp [hne, Res.isOk] at h
+      · simp only [hne] at h
+        have hx : a.all isSwiftX = true := by
+          unfold parseSwiftChars Res.guard at h
+          by_cases hh : a.all isSwiftX = true
+          · exact hh
+          · simp [hh, Res.isOk] at h
+        exact xtext_of_checks 35 a hl (by intro he; subst he; simp at hne) hx
+    · simp [hl, Res.isOk] at h
+  · intro hd
+    obtain ⟨h1, h2, h3⟩ := checks_of_xtext 35 a hd
+    have hne : a.isEmpty = false := by cases a <;> simp_all
+    simp only [h1, if_true, Res.bind_ok, hne, Bool.false_eq_true, if_false, parseSwiftChars, Res.guard, h3]
+    rfl
+
+/-- the value is the content without that slash: nothing else is dropped -/
+theorem value_25 (s a : Text) (h : F25.parse s = .ok a) : a = strip25 s := by
+  have e : F25.parse s = (do
+      let a ← parseMaxLength (strip25 s) 35
+      if a.isEmpty then Res.err else
+      parseSwiftChars a
+      pure a) := by
+    unfold F25.parse strip25; rfl
+  rw [e] at h
+  generalize strip25 s = b at h
+  unfold parseMaxLength at h
+  by_cases hl : blen b ≤ 35
+  · simp only [hl, if_true, Res.bind_ok] at h
+    by_cases hne : b.isEmpty = true
+    · simp [hne] at h
+    · simp only [hne] at h
+      unfold parseSwiftChars Res.guard at h
+      by_cases hh : b.all isSwiftX = true
+      · simp [hh] at h; exact h.symm
+      · simp [hh] at h
+  · simp [hl] at h
+
+/-- writing and re-reading: what `ser` prints is accepted again with the same value (the slash is re-added, then stripped) -/
+theorem reread_25 (s a : Text) (h : F25.parse s = .ok a) : F25.parse (F25.ser a) = .ok a := by
+  have hv := value_25 s a h
+  have hok : (F25.parse s).isOk = true := by rw [h]; rfl
+  have hd := (accepts_iff_25 s).mp hok
+  rw [← hv] at hd
+  have hok2 : (F25.parse (F25.ser a)).isOk = true := (accepts_iff_25 _).mpr (by simpa [F25.ser, strip25] using hd)
+  cases hp : F25.parse (F25.ser a) with
+  | ok b => have := value_25 _ b hp; simp [F25.ser, strip25] at this; rw [this]
+  | err => simp [hp, Res.isOk] at hok2
+  | panic => simp [hp, Res.isOk] at hok2
+
+example : (F25.parse "/DE89370400440532013000".toList).isOk = true := by decide
+example : (F25.parse "//X".toList) = .ok "/X".toList := by decide
+
+/-- 50L `35x`: one line of 1 to 35 x-characters -/
+theorem accepts_iff_50L (s : Text) : (F50L.parse s).isOk = true ↔ Doc.XText 35 s ∧ '\n' ∉ s := by
+  unfold F50L.parse
+  constructor
+  · intro h
+    split at h; · simp [Res.isOk] at h
+    rename_i hnl
+    split at h; · simp [Res.isOk] at h
+    rename_i hl
+    split at h
+    · rename_i hx
+      simp only [Bool.or_eq_true, not_or, gt_iff_lt, Nat.not_lt, decide_eq_true_eq] at hl
+      refine ⟨xtext_of_checks 35 s (by omega) (by intro he; subst he; simp at hl) hx, ?_⟩
+      simpa using hnl
+    · simp [Res.isOk] at h
+  · rintro ⟨hd, hnl⟩
+    obtain ⟨h1, h2, h3⟩ := checks_of_xtext 35 s hd
+    have hne : s.isEmpty = false := by cases s <;> simp_all
+    have hc : s.contains '\n' = false := by simpa using hnl
+    have hl : ¬ blen s > 35 := by omega
+    simp [hnl, hne, hl, h3, Res.isOk]
+
+example : (F50L.parse "INSTRUCTING PARTY 1".toList).isOk = true := by decide
 end SwiftMT.Props.C05
